@@ -213,6 +213,9 @@ def _worker(job):
     from xdoctest import static_analysis, core
     rng = random.Random(seed)
     src, expected = gen_module(rng)
+    if rng.random() < 0.15:
+        # the module is indented with TAB characters (one per level), docstrings included: still the same definitions and blocks
+        src = '\n'.join('\t' * ((len(l) - len(l.lstrip(' '))) // 4) + ' ' * ((len(l) - len(l.lstrip(' '))) % 4) + l.lstrip(' ') for l in src.split('\n'))
     try:
         tree = ast.parse(src)
     except SyntaxError as e:
